@@ -33,8 +33,11 @@ func gaussJordan_DenseFloat64(a, x *DenseFloat64Matrix, b DenseFloat64Vector, su
   n, _ := a.Dims()
   // permutation of the rows
   p := make([]int, n)
+  // sequence of row interchanges that generates p
+  q := make([]int, n)
   for i := 0; i < n; i++ {
     p[i] = i
+    q[i] = i
   }
   // x and b should have the same number of rows
   if m, _ := x.Dims(); m != n {
@@ -60,6 +63,7 @@ func gaussJordan_DenseFloat64(a, x *DenseFloat64Matrix, b DenseFloat64Vector, su
     }
     // swap rows
     p[i], p[maxrow] = p[maxrow], p[i]
+    q[i] = maxrow
     // eliminate column i
     for j := i+1; j < n; j++ {
       if !submatrix[j] {
@@ -148,13 +152,15 @@ func gaussJordan_DenseFloat64(a, x *DenseFloat64Matrix, b DenseFloat64Vector, su
     // normalize ith element in b
     b.AT(p[i]).DIV(b.AT(p[i]), c)
   }
-  if err := a.PermuteRows(p); err != nil {
+  // PermuteRows/Permute apply their argument as a sequence of
+  // interchanges (swap i and q[i]), not as a permutation vector
+  if err := a.PermuteRows(q); err != nil {
     return err
   }
-  if err := x.PermuteRows(p); err != nil {
+  if err := x.PermuteRows(q); err != nil {
     return err
   }
-  if err := b.Permute(p); err != nil {
+  if err := b.Permute(q); err != nil {
     return err
   }
   return nil
